@@ -323,7 +323,7 @@ def _sym_round(x, nd=None):
     if isinstance(x, S.Sym):
         c = x.const_value()
         if c is None:
-            raise S.SymbolicLeak('round() of a symbolic value')
+            return x.__round__(nd)
         x = Fraction(c)
     if isinstance(x, Fraction):
         return S.to_frac(round(x, nd)) if nd is not None else round(x)
